@@ -26,8 +26,21 @@ def run_mc(work, tag, text, workers, timeout=3000):
     return r
 
 
+def scenarios_c11(quick, seed):
+    """asynchronous-executor half of C11: refreshes / stale reads of a preloaded entry, mostly without writers"""
+    n = 120 if quick else 2000
+    out = []
+    for j in range(n):
+        outs = [["val"], ["err"], ["nf"], ["val", "err"], ["val", "nf", "err"]][j % 5]
+        out.append({"getters": j % 3, "bulk": (j // 3) % 2 if j % 4 == 0 else 0, "refreshers": 1 + (j // 2) % 3, "writers": [] if j % 4 else [["set"], ["invalidate"], ["compute"]][(j // 4) % 3],
+                    "preload": 1, "outcomes": outs, "policy": "random" if j % 2 else "pct", "seed": seed * 100000 + 50000 + j, "script": [], "refresh": 1, "bulkkeys": 2})
+    return out
+
+
 def scenarios(prop, quick, seed):
-    n = 200 if quick else 3000
+    if prop == "C11":
+        return scenarios_c11(quick, seed)
+    n = 320 if quick else 4000
     kinds = [["set"], ["invalidate"], ["compute"], ["evict"], ["set", "invalidate"], ["setifabsent"], ["invalidateAll"], [],
              ["compute", "set"], ["invalidate", "invalidate"], ["setifabsent", "setifabsent"]]
     out = []
@@ -46,15 +59,21 @@ def scenarios(prop, quick, seed):
                       outcomes=[["err"], ["nf"], ["panic"], ["val", "err"]][(j // 8) % 4])
         elif fam == 3:         # two refreshes of a present entry with a writer that may be a no-op
             sc.update(getters=j % 2, bulk=0, refreshers=2, refresh=1, preload=1, outcomes=[["val"], ["val", "err"], ["nf", "val"]][(j // 8) % 3],
-                      writers=[["setifabsent"], ["set"], [], ["invalidate"], ["compute"]][(j // 8) % 5])
+                      writers=[["setifabsent"], ["set"], ["setifabsent", "setifabsent"], ["invalidate"], ["compute"]][(j // 8) % 5])
+        elif fam == 6:         # a reload of a present entry while the entry is removed wholesale (InvalidateAll) or by eviction
+            sc.update(getters=(j // 8) % 2, bulk=0, refreshers=1 + (j // 16) % 2, refresh=1, preload=1, outcomes=[["val"], ["val", "val", "err"]][(j // 8) % 2],
+                      writers=[["invalidateAll"], ["invalidateAll", "set"], ["evict"], ["invalidate"], ["invalidateAll", "invalidateAll"]][(j // 8) % 5])
         elif fam == 7:         # BulkGet callers whose missing keys are all in flight elsewhere (they must wait for the joined loads)
             sc.update(getters=1 + j % 2, bulk=2, bulkkeys=1 + (j // 8) % 2, refreshers=0, refresh=0, preload=0, writers=[],
                       outcomes=[["val"], ["val", "nf"], ["val", "err"]][(j // 16) % 3])
+        if sc["writers"]:
+            # half of the racing scenarios are biased towards the two windows the properties name
+            sc["policy"] += ["", "+inflight", "+atinstall", "+inflight"][(j // 8) % 4]
         out.append(sc)
     return out
 
 
-def run(prop, tier, replay=None):
+def run(prop, tier, replay=None, collect_only=False):
     t0 = time.time()
     seed = vlib.seed()
     quick = tier == "quick"
@@ -70,7 +89,9 @@ def run(prop, tier, replay=None):
                 scen = json.load(f)
         else:
             inst = [("g2r1w2", lr_cfg([1, 2], [3], [11, 12], "WK_two", True)), ("g2w1ev", lr_cfg([1, 2], [], [11], "WK_ev", True))]
-            if not quick:
+            if prop == "C11":
+                inst = [("g1r2w1", lr_cfg([1], [3, 4], [11], "WK_set", True))]
+            elif not quick:
                 inst += [("g3r1w1", lr_cfg([1, 2, 3], [4], [11], "WK_set", False)), ("g2r2w2", lr_cfg([1, 2], [3, 4], [11, 12], "WK_two", False))]
             mc_futs = [ex.submit(run_mc, work, tag, txt, 6 if quick else 8) for tag, txt in inst]
             scen = scenarios(prop, quick, seed)
@@ -127,6 +148,8 @@ def run(prop, tier, replay=None):
         ex.shutdown()
     if not cov["samples"]:
         cov["samples"] = [{"note": "replay"}]
+    if collect_only:
+        return cov, violations, broken
     printed = set()
     for fd, x in known:
         if fd["id"] not in printed:
